@@ -8,7 +8,7 @@ use std::sync::Mutex;
 
 use serde_json::{json, Value as J};
 
-use yarel::memory::{self, Gc, GcManaged, Root};
+use yarel::memory::{self, Gc, GcManaged, Root, UniqueRoot};
 use yarel::verif;
 
 use crate::exec;
@@ -64,12 +64,11 @@ impl<const P: usize> Drop for Node<P> {
     }
 }
 
-fn snapshot(unit: usize) -> J {
+fn snapshot(_unit: usize) -> J {
     let st = memory::verif_heap_stats();
     let mut freed = FREED.lock().map(|f| f.clone()).unwrap_or_default();
     freed.sort();
-    json!({"freed": freed, "bytes": st.bytes_allocated / unit, "bytes_rem": st.bytes_allocated % unit,
-           "thr": st.collection_threshold / unit, "thr_rem": st.collection_threshold % unit,
+    json!({"freed": freed, "raw_bytes": st.bytes_allocated, "raw_thr": st.collection_threshold,
            "objects": st.objects, "collections": st.collections})
 }
 
@@ -94,12 +93,18 @@ fn replay<const P: usize>(ops: &[J], nlabels: usize) -> Vec<J> {
                 }
                 let serial = next_serial;
                 next_serial += 1;
-                let root = Root::new(Node::<P> {
+                let node = Node::<P> {
                     serial,
                     kind,
                     children: RefCell::new(vec![None; nlabels]),
                     pad: [0u8; P],
-                });
+                };
+                // optional 4th element = 1: allocate through UniqueRoot and convert (as define_class does)
+                let root: Root<Node<P>> = if arg(3) == 1 {
+                    UniqueRoot::new(node).into()
+                } else {
+                    Root::new(node)
+                };
                 ptrs.insert(serial, root.as_gc());
                 handles.entry(serial).or_default().push(root);
             }
